@@ -1,5 +1,6 @@
 import BddProofs.Reach
 import BddProofs.ErrGood
+import BddProofs.Bits
 /-! # C01 — canonical form: handle equality is exactly Boolean-function equality
 
 `Reachable s`: `s` is reached from a new manager (any storage / bucket / cache size) by any finite
@@ -56,6 +57,28 @@ theorem C01_canonical_after_failures {s : St} (hr : ReachableF s) {r r' : Ref} {
 example : Reachable s4 ∧ Valid s4.nodes Ref.one (fun _ => true) ∧ Valid s4.nodes Ref.zero (fun _ => false) :=
   ⟨.init (sb := 4) (bb := 4) (cb := 4) new4_ok, Valid.one, Valid.zero⟩
 
+/-- the same on the packed 32-bit words the code really holds (`Ref(u32)`: `index << 1 | negated`,
+negation = `^ 1`): for **every** word, negating twice gives the word back, negating never gives the
+same word, and it flips the complement flag while keeping the index — so the word-level negation is the
+model's `Ref.not` under the decoding `toRef` -/
+theorem C01_negation_on_words (w : BitVec 32) :
+    Bits.refNeg (Bits.refNeg w) = w ∧ Bits.refNeg w ≠ w ∧ Bits.toRef (Bits.refNeg w) = (Bits.toRef w).not := by
+  refine ⟨Bits.refNeg_involutive w, Bits.refNeg_ne w, ?_⟩
+  show (⟨(Bits.refIndex (Bits.refNeg w)).toNat, Bits.refIsNegated (Bits.refNeg w)⟩ : Ref) = _
+  rw [Bits.refNeg_index, Bits.refNeg_isNegated]; rfl
+
+/-- the packing is lossless exactly on the indices the constructor accepts: a model handle with
+`idx < 2^31` and its word determine each other (`Ref::new(i, n).index() == i`, `.is_negated() == n`),
+the word's numeric value is what the model hashes, and every word decodes to such a handle; at `2^31`
+the packing really loses the index (`Bits.refNew_overflow`) -/
+theorem C01_handle_words (r : Ref) (h : r.idx < 2147483648) (w : BitVec 32) :
+    (Bits.toRef (Bits.ofRef r) = r ∧ (Bits.ofRef r).toNat = r.raw ∧ Bits.refNeg (Bits.ofRef r) = Bits.ofRef r.not) ∧
+    (Bits.ofRef (Bits.toRef w) = w ∧ (Bits.toRef w).idx < 2147483648) :=
+  ⟨Bits.toRef_ofRef r h, Bits.ofRef_toRef w⟩
+
+/-- non-vacuity: the constant false is the word 3 -/
+example : Bits.ofRef Ref.zero = 3#32 ∧ Bits.toRef 3#32 = Ref.zero := by decide
+
 end P
 #print axioms P.C01_canonical
 #print axioms P.C01_canonical_good
@@ -64,3 +87,5 @@ end P
 #print axioms P.C01_survives_collection
 #print axioms P.C01_canonical_after_failures
 #print axioms P.reachable_good
+#print axioms P.C01_negation_on_words
+#print axioms P.C01_handle_words
